@@ -6,6 +6,7 @@ import Driver.C06
 import Driver.C07
 import Driver.C09
 import Driver.C13
+import Driver.C17
 open Lean Drv
 
 def dispatch (j : Json) : Except String Json := do
@@ -18,6 +19,7 @@ def dispatch (j : Json) : Except String Json := do
   | "C07" => Drv.C07.handle j
   | "C09" => Drv.C09.handle j
   | "C13" => Drv.C13.handle j
+  | "C17" => Drv.C17.handle j
   | _ => throw s!"bad-property {p}"
 
 partial def loop (h : IO.FS.Stream) (out : IO.FS.Stream) : IO Unit := do
